@@ -473,3 +473,450 @@ Proof.
     + rewrite !sapp_assoc. rewrite (shape_exp (m <? 0) a rest AP NF).
       rewrite <- CAN. fold ds. unfold n in *. solve [repeat (f_equal; try lia)].
 Qed.
+
+(* ------------------------------------------------------------------ values *)
+Local Close Scope Z_scope.
+Local Open Scope string_scope.
+From OV.Model Require Import Utf8Proofs StringRoundTrip.
+
+Definition num_wf (n : num) : Prop :=
+  match n with
+  | NInt z => int_ok z
+  | NDec m e k => k = FFloat /\ float_ok m e
+  | NNaN | NInf _ => True
+  end.
+
+(* representable and unambiguous: ints within the digit limit, floats given by their repr, strs without an
+   unpaired-looking surrogate pair, distinct keys *)
+Fixpoint wf (v : json) : Prop :=
+  match v with
+  | JNull | JBool _ => True
+  | JNum n => num_wf n
+  | JStr s => WfStr s
+  | JArr l => (fix go (l : list json) : Prop := match l with [] => True | x :: r => wf x /\ go r end) l
+  | JObj l => NoDup (map fst l) /\
+              (fix go (l : list (string * json)) : Prop :=
+                 match l with [] => True | kx :: r => WfStr (fst kx) /\ wf (snd kx) /\ go r end) l
+  end.
+
+Fixpoint depth (v : json) : nat :=
+  match v with
+  | JArr l => S ((fix go (l : list json) : nat := match l with [] => 0 | x :: r => Nat.max (depth x) (go r) end) l)
+  | JObj l => S ((fix go (l : list (string * json)) : nat :=
+                    match l with [] => 0 | kx :: r => Nat.max (depth (snd kx)) (go r) end) l)
+  | _ => 0
+  end.
+
+(* what follows a value inside a document *)
+Definition follow (rest : string) : bool :=
+  match rest with
+  | EmptyString => true
+  | String c _ => let n := N_of_ascii c in (N.eqb n 44 || N.eqb n 93 || N.eqb n 125)%bool
+  end.
+
+Lemma follow_num rest : follow rest = true -> num_follow rest = true.
+Proof.
+  destruct rest as [|c r]; [reflexivity|]. unfold follow, num_follow, is_digit, digit_val. cbv zeta.
+  destruct (N.eqb_spec (N_of_ascii c) 44) as [->|]; [reflexivity|].
+  destruct (N.eqb_spec (N_of_ascii c) 93) as [->|]; [reflexivity|].
+  destruct (N.eqb_spec (N_of_ascii c) 125) as [->|]; [reflexivity|discriminate].
+Qed.
+
+Lemma follow_skip rest : follow rest = true -> skip_ws rest = rest.
+Proof.
+  destruct rest as [|c r]; [reflexivity|]. unfold follow. cbv zeta. cbn [skip_ws]. unfold is_ws. cbv zeta.
+  destruct (N.eqb_spec (N_of_ascii c) 44) as [->|]; [reflexivity|].
+  destruct (N.eqb_spec (N_of_ascii c) 93) as [->|]; [reflexivity|].
+  destruct (N.eqb_spec (N_of_ascii c) 125) as [->|]; [reflexivity|discriminate].
+Qed.
+
+(* a text that starts like a number goes to the number scanner *)
+Definition numeric_start (s : string) : bool :=
+  match s with
+  | String c r =>
+      (is_digit c || (N.eqb (N_of_ascii c) 45 && match r with String i _ => is_digit i | EmptyString => false end))%bool
+  | EmptyString => false
+  end.
+
+Lemma is_digit_range c : is_digit c = true -> (48 <= N_of_ascii c <= 57)%N.
+Proof.
+  unfold is_digit, digit_val. cbv zeta.
+  destruct (N.leb_spec 48 (N_of_ascii c)); [|discriminate].
+  destruct (N.leb_spec (N_of_ascii c) 57); [lia|discriminate].
+Qed.
+
+Lemma neqb a b : a <> b -> N.eqb a b = false.
+Proof. apply N.eqb_neq. Qed.
+
+Lemma pvalue_numeric f d s : numeric_start s = true -> pvalue (S f) d s = pnumber s.
+Proof.
+  destruct s as [|c r]; [discriminate|]. unfold numeric_start. intros H.
+  apply orb_true_iff in H. cbn [pvalue]. cbv zeta. destruct H as [H|H].
+  - apply is_digit_range in H.
+    rewrite !neqb by lia. cbn [andb]. reflexivity.
+  - apply andb_true_iff in H. destruct H as [H1 H2]. apply N.eqb_eq in H1. rewrite H1.
+    destruct r as [|i r']; [discriminate|]. apply is_digit_range in H2.
+    change (N.eqb 45 34) with false. change (N.eqb 45 123) with false. change (N.eqb 45 91) with false.
+    change (N.eqb 45 110) with false. change (N.eqb 45 116) with false. change (N.eqb 45 102) with false.
+    change (N.eqb 45 78) with false. change (N.eqb 45 73) with false. change (N.eqb 45 45) with true.
+    rewrite (neqb (N_of_ascii i) 73) by lia. reflexivity.
+Qed.
+
+Lemma scan_int_digit s u r : scan_int s = Some (u, r) -> match s with String c _ => is_digit c = true | _ => False end.
+Proof.
+  destruct s as [|c r0]; [discriminate|]. unfold scan_int.
+  destruct (N.eqb_spec (N_of_ascii c) 48) as [E|NE].
+  - intros _. unfold is_digit, digit_val. cbv zeta. rewrite E. reflexivity.
+  - destruct (is_digit c); [reflexivity|discriminate].
+Qed.
+
+Lemma pnumber_numeric s v r : pnumber s = POk v r -> numeric_start s = true.
+Proof.
+  unfold pnumber. destruct (scan_number s) as [[l r0]|] eqn:E; [|discriminate]. intros _.
+  unfold scan_number in E. destruct s as [|c s']; [discriminate|].
+  unfold scan_sign in E. unfold numeric_start.
+  destruct (N.eqb (N_of_ascii c) 45) eqn:C.
+  - destruct (scan_int s') as [[iu s2]|] eqn:I; [|discriminate]. apply scan_int_digit in I.
+    destruct s' as [|i r']; [contradiction|]. rewrite I. cbn [andb]. apply orb_true_r.
+  - destruct (scan_int (String c s')) as [[iu s2]|] eqn:I; [|discriminate]. apply scan_int_digit in I.
+    rewrite I. reflexivity.
+Qed.
+
+Lemma pvalue_number f d s v r : pnumber s = POk v r -> pvalue (S f) d s = POk v r.
+Proof. intros H. rewrite pvalue_numeric by (eapply pnumber_numeric; exact H). exact H. Qed.
+
+(* the first character of a printed value: not whitespace, not a closing bracket *)
+Definition head_ok (s : string) : Prop :=
+  match s with
+  | String c _ => is_ws c = false /\ N.eqb (N_of_ascii c) 93 = false /\ N.eqb (N_of_ascii c) 125 = false /\
+                  N.eqb (N_of_ascii c) 239 = false
+  | EmptyString => False
+  end.
+
+Lemma head_ok_numeric s : numeric_start s = true -> head_ok s.
+Proof.
+  destruct s as [|c r]; [discriminate|]. unfold numeric_start, head_ok, is_ws. cbv zeta. intros H.
+  apply orb_true_iff in H. destruct H as [H|H].
+  - apply is_digit_range in H. rewrite !neqb by lia. repeat split; reflexivity.
+  - apply andb_true_iff in H. destruct H as [H _]. apply N.eqb_eq in H. rewrite H. repeat split; reflexivity.
+Qed.
+
+Lemma head_ok_skip s : head_ok s -> skip_ws s = s.
+Proof. destruct s as [|c r]; [contradiction|]. intros [H _]. cbn [skip_ws]. rewrite H. reflexivity. Qed.
+
+Notation slen := String.length.
+
+Definition RT (v : json) : Prop :=
+  wf v -> forall f d rest, follow rest = true -> depth v <= d -> 2 * slen (print_compact v) + 1 <= f ->
+  pvalue f d (print_compact v ++ rest) = POk v rest.
+
+Lemma head_ok_print v rest : wf v -> follow rest = true -> head_ok (print_compact v ++ rest).
+Proof.
+  intros W F. destruct v as [| b | n | s | l | l]; cbn [print_compact].
+  - repeat split.
+  - destruct b; repeat split.
+  - destruct n as [z | m e k | | ng]; cbn [num_text].
+    + apply head_ok_numeric. eapply pnumber_numeric. apply pnumber_int; [exact W|apply follow_num, F].
+    + destruct W as [-> W]. apply head_ok_numeric. eapply pnumber_numeric. apply pnumber_float; [exact W|apply follow_num, F].
+    + repeat split.
+    + destruct ng; repeat split.
+  - repeat split.
+  - repeat split.
+  - repeat split.
+Qed.
+
+Lemma RT_null : RT JNull.
+Proof. intros _ f d rest F D L. destruct f; [simpl in L; lia|]. reflexivity. Qed.
+
+Lemma prefix_rest_app p s : prefix_rest p (p ++ s) = Some s.
+Proof. induction p as [|a p IH]; [reflexivity|]. simpl. rewrite Ascii.eqb_refl. exact IH. Qed.
+
+Lemma RT_bool b : RT (JBool b).
+Proof. intros _ f d rest F D L. destruct f; [simpl in L; lia|]. destruct b; reflexivity. Qed.
+
+Lemma RT_num n : RT (JNum n).
+Proof.
+  intros W f d rest F D L. destruct f; [simpl in L; lia|].
+  destruct n as [z | m e k | | ng]; cbn [print_compact num_text].
+  - apply pvalue_number. apply pnumber_int; [exact W|apply follow_num, F].
+  - destruct W as [-> W]. apply pvalue_number. apply pnumber_float; [exact W|apply follow_num, F].
+  - reflexivity.
+  - destruct ng; reflexivity.
+Qed.
+
+Lemma pvalue_quote f d X : pvalue (S f) d (String """" X) = match pstring X with Some (body, r') => POk (JStr body) r' | None => PErr end.
+Proof. reflexivity. Qed.
+
+Lemma str_text_app s rest : str_text s ++ rest = String """" (escape_str (slen s) s ++ String """" rest).
+Proof. unfold str_text. rewrite !sapp_assoc. reflexivity. Qed.
+
+Lemma RT_str s : RT (JStr s).
+Proof.
+  intros W f d rest F D L. destruct f; [simpl in L; lia|]. cbn [print_compact].
+  rewrite str_text_app, pvalue_quote, pstring_str_text by exact W. reflexivity.
+Qed.
+
+(* ---- arrays ---- *)
+Lemma join_cons2 sep x y r : join sep (x :: y :: r) = x ++ sep ++ join sep (y :: r).
+Proof. reflexivity. Qed.
+
+Lemma wf_arr l : wf (JArr l) <-> Forall wf l.
+Proof.
+  cbn [wf]. induction l as [|x r IH]; [split; [constructor|trivial]|].
+  split.
+  - intros [W1 W2]. constructor; [exact W1|apply IH; exact W2].
+  - intros F. inversion F; subst. split; [assumption|apply IH; assumption].
+Qed.
+
+Lemma depth_arr l d : depth (JArr l) <= S d <-> Forall (fun x => depth x <= d) l.
+Proof.
+  cbn [depth]. induction l as [|x r IH]; [split; [constructor|lia]|].
+  split.
+  - intros H. constructor; [lia|apply IH; lia].
+  - intros F. inversion F; subst. apply IH in H2. lia.
+Qed.
+
+Lemma head_ok_join l rest : l <> [] -> Forall wf l ->
+  head_ok (join "," (map print_compact l) ++ String "]" rest).
+Proof.
+  destruct l as [|x [|y r]]; [congruence| |]; intros _ F; inversion F; subst; cbn [map].
+  - cbn [join]. apply head_ok_print; [assumption|reflexivity].
+  - rewrite join_cons2, !sapp_assoc. apply head_ok_print; [assumption|reflexivity].
+Qed.
+
+Lemma pelements_S f d s acc :
+  pelements (S f) d s acc =
+  match pvalue f d s with
+  | POk v r =>
+      match skip_ws r with
+      | String c r' =>
+          if N.eqb (N_of_ascii c) 44 then pelements f d (skip_ws r') (v :: acc)
+          else if N.eqb (N_of_ascii c) 93 then POk (JArr (List.rev (v :: acc))) r'
+          else PErr
+      | EmptyString => PErr
+      end
+  | e => e
+  end.
+Proof. reflexivity. Qed.
+
+Lemma pelements_join l : l <> [] -> Forall RT l -> Forall wf l ->
+  forall acc f d rest, Forall (fun x => depth x <= d) l ->
+  2 * slen (join "," (map print_compact l)) + 2 <= f ->
+  pelements f d (join "," (map print_compact l) ++ String "]" rest) acc = POk (JArr (List.rev acc ++ l)) rest.
+Proof.
+  induction l as [|x xs IH]; [congruence|]. intros _ FR FW acc f d rest FD L.
+  inversion FR as [|? ? Rx FRs]; subst. inversion FW as [|? ? Wx FWs]; subst.
+  inversion FD as [|? ? Dx FDs]; subst.
+  destruct f as [|f]; [lia|]. rewrite pelements_S.
+  destruct xs as [|y ys].
+  - cbn [map join] in L |- *. rewrite (Rx Wx f d (String "]" rest)) by (try reflexivity; try assumption; lia).
+    cbn. reflexivity.
+  - cbn [map] in L |- *. rewrite join_cons2 in L |- *. rewrite !sapp_length in L. rewrite !sapp_assoc.
+    rewrite (Rx Wx f d) by (try reflexivity; try assumption; lia).
+    change (skip_ws ("," ++ join "," (print_compact y :: map print_compact ys) ++ String "]" rest))
+      with ("," ++ join "," (print_compact y :: map print_compact ys) ++ String "]" rest).
+    cbn [append]. change (N.eqb (N_of_ascii ",") 44) with true. cbv iota.
+    change (print_compact y :: map print_compact ys) with (map print_compact (y :: ys)).
+    rewrite head_ok_skip by (apply head_ok_join; [discriminate|assumption]).
+    rewrite (IH ltac:(discriminate) FRs FWs (x :: acc) f d rest FDs) by (cbn [map]; change (slen ",") with 1 in L; lia).
+    cbn [List.rev]. rewrite <- app_assoc. reflexivity.
+Qed.
+
+Lemma pvalue_arr f d s : head_ok s -> pvalue (S f) (S d) (String "[" s) = pelements f d s [].
+Proof.
+  intros H. cbn [pvalue]. cbv zeta.
+  change (N.eqb (N_of_ascii "[") 34) with false. change (N.eqb (N_of_ascii "[") 123) with false.
+  change (N.eqb (N_of_ascii "[") 91) with true. cbv iota.
+  rewrite head_ok_skip by exact H. destruct s as [|c r]; [contradiction|].
+  destruct H as [_ [H _]]. rewrite H. reflexivity.
+Qed.
+
+Lemma RT_arr l : Forall RT l -> RT (JArr l).
+Proof.
+  intros FR W f d rest F D L. apply wf_arr in W.
+  destruct d as [|d]; [cbn [depth] in D; lia|]. apply depth_arr in D.
+  destruct f as [|f]; [lia|]. cbn [print_compact] in *.
+  destruct l as [|x xs].
+  - reflexivity.
+  - rewrite !sapp_assoc. cbn [append]. rewrite !sapp_length in L. cbn [slen] in L.
+    rewrite pvalue_arr by (apply head_ok_join; [discriminate|exact W]).
+    change ("]" ++ rest) with (String "]" rest).
+    rewrite (pelements_join (x :: xs) ltac:(discriminate) FR W [] f d rest D) by lia.
+    reflexivity.
+Qed.
+
+(* ---- objects ---- *)
+Definition member (kv : string * json) : string := str_text (fst kv) ++ ":" ++ print_compact (snd kv).
+
+Lemma print_obj l : print_compact (JObj l) = "{" ++ join "," (map member l) ++ "}".
+Proof. reflexivity. Qed.
+
+Definition wf_member (kv : string * json) : Prop := WfStr (fst kv) /\ wf (snd kv).
+
+Lemma wf_obj l : wf (JObj l) <-> NoDup (map fst l) /\ Forall wf_member l.
+Proof.
+  cbn [wf]. split; intros [N W]; split; try exact N.
+  - induction l as [|x r IH]; [constructor|]. destruct W as [W1 [W2 W3]].
+    constructor; [split; assumption|]. apply IH; [inversion N; assumption|exact W3].
+  - induction l as [|x r IH]; [trivial|]. inversion W as [|? ? [W1 W2] W3]; subst.
+    split; [exact W1|split; [exact W2|]]. apply IH; [inversion N; assumption|exact W3].
+Qed.
+
+Lemma depth_obj l d : depth (JObj l) <= S d <-> Forall (fun kv => depth (snd kv) <= d) l.
+Proof.
+  cbn [depth]. induction l as [|x r IH]; [split; [constructor|lia]|].
+  split.
+  - intros H. constructor; [lia|apply IH; lia].
+  - intros F. inversion F; subst. apply IH in H2. lia.
+Qed.
+
+Lemma dict_set_fresh k v acc : ~ In k (map fst acc) -> dict_set k v acc = (acc ++ [(k, v)])%list.
+Proof.
+  induction acc as [|[k' v'] r IH]; intros NI; [reflexivity|]. cbn [dict_set].
+  destruct (String.eqb_spec k k') as [->|NE]; [exfalso; apply NI; left; reflexivity|].
+  rewrite IH; [reflexivity|]. intros H. apply NI. right. exact H.
+Qed.
+
+Lemma pmembers_S f d q r acc :
+  pmembers (S f) d (String q r) acc =
+  if N.eqb (N_of_ascii q) 34 then
+    match pstring r with
+    | None => PErr
+    | Some (k, r1) =>
+        match skip_ws r1 with
+        | String c r2 =>
+            if N.eqb (N_of_ascii c) 58 then
+              match pvalue f d (skip_ws r2) with
+              | POk v r3 =>
+                  match skip_ws r3 with
+                  | String c' r4 =>
+                      if N.eqb (N_of_ascii c') 44 then pmembers f d (skip_ws r4) (dict_set k v acc)
+                      else if N.eqb (N_of_ascii c') 125 then POk (JObj (dict_set k v acc)) r4
+                      else PErr
+                  | EmptyString => PErr
+                  end
+              | e => e
+              end
+            else PErr
+        | EmptyString => PErr
+        end
+    end
+  else PErr.
+Proof. reflexivity. Qed.
+
+Lemma member_app kv rest :
+  member kv ++ rest = String """" (escape_str (slen (fst kv)) (fst kv) ++ String """" (String ":" (print_compact (snd kv) ++ rest))).
+Proof. unfold member. rewrite !sapp_assoc. rewrite str_text_app. reflexivity. Qed.
+
+Lemma head_ok_member kv rest : head_ok (member kv ++ rest).
+Proof. rewrite member_app. repeat split. Qed.
+
+Lemma head_ok_members l rest : l <> [] -> head_ok (join "," (map member l) ++ rest).
+Proof.
+  destruct l as [|x [|y r]]; [congruence| |]; intros _; cbn [map].
+  - cbn [join]. apply head_ok_member.
+  - rewrite join_cons2, !sapp_assoc. apply head_ok_member.
+Qed.
+
+(* one member followed by [rest1] (a comma or the closing brace) *)
+Lemma pmembers_one f d kv rest1 acc :
+  RT (snd kv) -> wf_member kv -> follow rest1 = true -> depth (snd kv) <= d ->
+  2 * slen (print_compact (snd kv)) + 1 <= f ->
+  pmembers (S f) d (member kv ++ rest1) acc =
+  match rest1 with
+  | String c' r4 =>
+      if N.eqb (N_of_ascii c') 44 then pmembers f d (skip_ws r4) (dict_set (fst kv) (snd kv) acc)
+      else if N.eqb (N_of_ascii c') 125 then POk (JObj (dict_set (fst kv) (snd kv) acc)) r4
+      else PErr
+  | EmptyString => PErr
+  end.
+Proof.
+  intros R [WK WV] F D L. rewrite member_app, pmembers_S.
+  change (N.eqb (N_of_ascii """") 34) with true. cbv iota.
+  rewrite pstring_str_text by exact WK.
+  change (skip_ws (String ":" (print_compact (snd kv) ++ rest1))) with (String ":" (print_compact (snd kv) ++ rest1)).
+  change (N.eqb (N_of_ascii ":") 58) with true. cbv iota.
+  rewrite head_ok_skip by (apply head_ok_print; assumption).
+  rewrite (R WV f d rest1 F D L). rewrite follow_skip by exact F. reflexivity.
+Qed.
+
+Lemma pmembers_join l : l <> [] -> Forall (fun kv => RT (snd kv)) l -> Forall wf_member l ->
+  forall acc f d rest, NoDup (map fst (acc ++ l)) -> Forall (fun kv => depth (snd kv) <= d) l ->
+  2 * slen (join "," (map member l)) + 2 <= f ->
+  pmembers f d (join "," (map member l) ++ String "}" rest) acc = POk (JObj (acc ++ l)) rest.
+Proof.
+  induction l as [|x xs IH]; [congruence|]. intros _ FR FW acc f d rest ND FD L.
+  inversion FR as [|? ? Rx FRs]; subst. inversion FW as [|? ? Wx FWs]; subst.
+  inversion FD as [|? ? Dx FDs]; subst.
+  assert (FRESH : ~ In (fst x) (map fst acc)).
+  { rewrite map_app in ND. cbn [map] in ND. apply NoDup_remove_2 in ND. intros H. apply ND.
+    apply in_or_app. left. exact H. }
+  assert (LM : slen (member x) = slen (str_text (fst x)) + (1 + slen (print_compact (snd x)))).
+  { unfold member. rewrite !sapp_length. reflexivity. }
+  destruct f as [|f]; [lia|].
+  destruct xs as [|y ys].
+  - cbn [map join] in L |- *. rewrite pmembers_one; try assumption; try reflexivity; [|lia].
+    change (N.eqb (N_of_ascii "}") 44) with false. change (N.eqb (N_of_ascii "}") 125) with true. cbv iota.
+    rewrite dict_set_fresh by exact FRESH. destruct x; reflexivity.
+  - cbn [map] in L |- *. rewrite join_cons2 in L |- *. rewrite !sapp_length in L. rewrite !sapp_assoc.
+    change ("," ++ join "," (member y :: map member ys) ++ String "}" rest)
+      with (String "," (join "," (member y :: map member ys) ++ String "}" rest)).
+    rewrite pmembers_one; try assumption; try reflexivity; [|change (slen ",") with 1 in L; lia].
+    change (N.eqb (N_of_ascii ",") 44) with true. cbv iota.
+    rewrite head_ok_skip by (apply (head_ok_members (y :: ys)); discriminate).
+    rewrite dict_set_fresh by exact FRESH.
+    change (member y :: map member ys) with (map member (y :: ys)).
+    rewrite (IH ltac:(discriminate) FRs FWs (acc ++ [(fst x, snd x)])%list f d rest).
+    + rewrite <- app_assoc. destruct x; reflexivity.
+    + rewrite <- app_assoc. destruct x; exact ND.
+    + exact FDs.
+    + cbn [map]. change (slen ",") with 1 in L. lia.
+Qed.
+
+Lemma pvalue_obj f d s : head_ok s -> pvalue (S f) (S d) (String "{" s) = pmembers f d s [].
+Proof.
+  intros H. cbn [pvalue]. cbv zeta.
+  change (N.eqb (N_of_ascii "{") 34) with false. change (N.eqb (N_of_ascii "{") 123) with true. cbv iota.
+  rewrite head_ok_skip by exact H. destruct s as [|c r]; [contradiction|].
+  destruct H as [_ [_ [H _]]]. rewrite H. reflexivity.
+Qed.
+
+Lemma RT_obj l : Forall (fun kv => RT (snd kv)) l -> RT (JObj l).
+Proof.
+  intros FR W f d rest F D L. apply wf_obj in W. destruct W as [ND W].
+  destruct d as [|d]; [cbn [depth] in D; lia|]. apply depth_obj in D.
+  destruct f as [|f]; [lia|]. rewrite print_obj in *.
+  destruct l as [|x xs].
+  - reflexivity.
+  - rewrite !sapp_assoc. cbn [append]. rewrite !sapp_length in L. cbn [slen] in L.
+    rewrite pvalue_obj by (apply head_ok_members; discriminate).
+    change ("}" ++ rest) with (String "}" rest).
+    rewrite (pmembers_join (x :: xs) ltac:(discriminate) FR W [] f d rest ND D) by lia.
+    reflexivity.
+Qed.
+
+(* ------------------------------------------------------------------ the round trip *)
+Theorem print_parse v : RT v.
+Proof.
+  induction v using json_ind'.
+  - apply RT_null.
+  - apply RT_bool.
+  - apply RT_num.
+  - apply RT_str.
+  - apply RT_arr. assumption.
+  - apply RT_obj. assumption.
+Qed.
+
+Theorem loads_print limit v : wf v -> depth v <= limit -> loads limit (print_compact v) = LValue v.
+Proof.
+  intros W D. unfold loads.
+  pose proof (head_ok_print v "" W eq_refl) as H. rewrite sapp_nil_r in H.
+  assert (B : prefix_rest bom (print_compact v) = None).
+  { destruct (print_compact v) as [|c r]; [contradiction|]. destruct H as [_ [_ [_ H]]].
+    unfold bom. cbn [prefix_rest]. destruct (Ascii.eqb_spec (ascii_of_N 239) c) as [<-|NE]; [|reflexivity].
+    exfalso. vm_compute in H. discriminate H. }
+  rewrite B. rewrite head_ok_skip by exact H.
+  rewrite <- (sapp_nil_r (print_compact v)) at 2.
+  rewrite (print_parse v W (enough (print_compact v)) limit "" eq_refl D) by (unfold enough; lia).
+  reflexivity.
+Qed.
